@@ -21,7 +21,7 @@ SPEC = {
         'strict_prefix_fails', 'truncated_load_rejected', 'truncated_rejected_dexp', 'truncated_rejected_sexp', 'truncated_rejected_dmodel',
         'truncated_rejected_smodel', 'truncated_rejected_mpol', 'truncated_rejected_ppol', 'truncated_rejected_pd', 'truncated_rejected_ps',
         # bytes <-> tokens: any white-space layout tokenizes back to the token list; byte-level round trip
-        'tokenize_render', 'roundtrip_bytes', 'printN_clean',
+        'tokenize_render', 'roundtrip_bytes', 'printN_clean', 'wrDModel_clean', 'wrPPol_clean', 'truncated_bytes_rejected',
         # the fuel of the policy loop is immaterial (the model is the unbounded while(true))
         'dec_rdEntry', 'polLoop_fuel_step', 'rdPPol_fuel_free', 'ratIO_scanShrinks',
         # tied to the source through Gen/IOPrec
